@@ -34,6 +34,7 @@ func runC05(o *Out, rng *Rng, tier string, replay string) {
 		o.CountN("limit_closures", s.limitClosures)
 		o.CountN("closed_trips_carried_over_update", s.closedKept)
 		o.CountN("out_of_order_adds", s.outOfOrder)
+		o.CountN("flights_reported_ahead_of_departure", s.ahead)
 		o.CountN("removes", s.removes)
 		thAdd(o, s, s.limitClosures > 0 && s.closedKept > 0)
 	}
@@ -83,6 +84,7 @@ func runC07(o *Out, rng *Rng, tier string, replay string) {
 		o.CountN("dropped_oldest", s.droppedOldest)
 		o.CountN("refused_too_old", s.refusedTooOld)
 		o.CountN("out_of_order_adds", s.outOfOrder)
+		o.CountN("flights_reported_ahead_of_departure", s.ahead)
 		o.CountN("ties", s.ties)
 		o.CountN("removes", s.removes)
 		o.CountN("tte_preserved_checks", s.ttePreserved)
